@@ -1668,7 +1668,24 @@ func checkLookAssertion(look Look, haystack []byte, pos int) bool {
 		// No boundary when is_word(prev) == is_word(curr)
 		wordBefore := pos > 0 && isWordByte(haystack[pos-1])
 		wordAfter := pos < len(haystack) && isWordByte(haystack[pos])
-		return wordBefore == wordAfter
+		return wordBefore == wordAfter && !insideRune(haystack, pos)
+	}
+	return false
+}
+
+// insideRune reports whether pos lies strictly inside a valid multi-byte UTF-8
+// sequence. Go's regexp steps rune by rune (an invalid byte is a rune of width 1),
+// so it never tests an assertion there; a bytewise \B would hold between the
+// bytes of "é" because both neighbours are non-word bytes.
+func insideRune(haystack []byte, pos int) bool {
+	if pos <= 0 || pos >= len(haystack) || haystack[pos]&0xC0 != 0x80 {
+		return false
+	}
+	for s := pos - 1; s >= 0 && s >= pos-3; s-- {
+		if haystack[s]&0xC0 != 0x80 { // nearest non-continuation byte starts the rune
+			_, w := utf8.DecodeRune(haystack[s:])
+			return w > pos-s
+		}
 	}
 	return false
 }
